@@ -9,12 +9,13 @@ from packaging.utils import parse_wheel_filename
 from dep_logic.tags.platform import Platform
 from dep_logic.tags.tags import EnvSpec, InvalidWheelFilename, parse_wheel_tags
 
-NAMES = ["foo", "foo_bar", "Foo.Bar", "f00", "a_b_c", "x"]
+# the extension, the separators and tag-like words also occur *inside* the fields
+NAMES = ["foo", "foo_bar", "Foo.Bar", "f00", "a_b_c", "x", "pdm.whl.tools", "whl", "a.whl", "none", "py3.none.any", "x.whl.whl"]
 VERSIONS = ["1.0", "1.0.post1", "2!1.0", "1.0a1", "0.1.dev3", "1_0"]
 BUILDS = [None, "1", "2abc", "10_x"]
-PYTAGS = ["py3", "py2.py3", "cp38", "cp38.cp39.cp310", "pp310"]
+PYTAGS = ["py3", "py2.py3", "cp38", "cp38.cp39.cp310", "pp310", "py3.whl"]
 ABITAGS = ["none", "abi3", "cp38", "cp38m.cp38", "pypy310_pp73"]
-PLATTAGS = ["any", "manylinux_2_17_x86_64", "manylinux_2_17_x86_64.manylinux2014_x86_64", "win_amd64", "macosx_10_9_x86_64.macosx_11_0_arm64", "linux_x86_64"]
+PLATTAGS = ["any", "any.whl", "manylinux_2_17_x86_64", "manylinux_2_17_x86_64.manylinux2014_x86_64", "win_amd64", "macosx_10_9_x86_64.macosx_11_0_arm64", "linux_x86_64"]
 
 
 def run(tier="quick", seed=0, arg=None):
@@ -24,7 +25,7 @@ def run(tier="quick", seed=0, arg=None):
         fails.append({"check": check, "input": inp, "observed": observed, "expected": expected})
     spec = EnvSpec.from_spec(">=3.8", "linux")
     combos = list(itertools.product(NAMES, VERSIONS, BUILDS, PYTAGS, ABITAGS, PLATTAGS))
-    step = 7 if tier == "quick" else 1
+    step = 11 if tier == "quick" else 1
     for n, v, b, py, abi, plat in combos[::step]:
         parts = [n, v] + ([b] if b else []) + [py, abi, plat]
         fn = "-".join(parts) + ".whl"
